@@ -667,7 +667,7 @@ func (e *entry) accepts(w *World, r *respInfo, single bool) (bool, *Verdict) {
 		}
 		// the handler ran with e.args
 		switch e.ms.Beh {
-		case "echo":
+		case "echo", "waitctx":
 			return r.hasResult && sameJSON(&J{K: '[', A: e.args}, r.result), nil
 		case "typednil":
 			return r.hasResult && r.result.K == 'n', nil
